@@ -221,6 +221,10 @@ pub struct EfgOpts {
     pub interior: bool,
     pub share_outcomes: bool,
     pub unnamed_fraction: u32,
+    /// chance outcome labels may be empty or repeated (only for files that are to encode the tree
+    /// outcome by outcome: the reader orders outcomes by label, then probability, so with repeated
+    /// labels a deliberately permuted weight list would no longer be a violation)
+    pub free_chance_labels: bool,
 }
 
 #[derive(Clone, Debug)]
@@ -265,6 +269,8 @@ struct EfgCtx<'s, 'a> {
     next_outcome: u64,
     shared_outcomes: BTreeMap<(u64, u64), (u64, String)>,
     opts: EfgOpts,
+    /// derived from the tree (not from the stream): picks the spelling of chance outcome labels
+    salt: u64,
     interior: usize,
     /// outcomes written so far that an interior node may refer to again: (number, u1, u2, payoff text, written at a terminal)
     pool: Vec<(u64, f64, f64, String, bool)>,
@@ -296,6 +302,13 @@ pub fn to_efg_text(tree: &T, opts: &EfgOpts, s: &mut Stream) -> EfgText {
         next_outcome: 1,
         shared_outcomes: BTreeMap::new(),
         opts: opts.clone(),
+        salt: {
+            let mut bytes: Vec<u8> = (tree.num_nodes() as u64).to_le_bytes().to_vec();
+            for p in tree.payoffs().iter().take(8) {
+                bytes.extend_from_slice(&p.to_bits().to_le_bytes());
+            }
+            crate::stream::hash_bytes(&bytes)
+        },
         interior: 0,
         pool: Vec::new(),
         slots: Vec::new(),
@@ -484,6 +497,7 @@ fn efg_node(node: &T, ctx: &mut EfgCtx, acc1: f64, acc2: f64) {
             let log_total = total.trailing_zeros();
             let decimal = dyadic_total && log_total <= 24 && ctx.s.bool();
             let valid_weights = !outs.is_empty() && outs.iter().all(|(w, _)| *w > 0.0 && w.is_finite());
+            let label_style = if ctx.opts.free_chance_labels { crate::stream::mix2(ctx.salt, num) % 4 } else { 0 };
             let probs: Vec<String> = outs
                 .iter()
                 .enumerate()
@@ -502,7 +516,15 @@ fn efg_node(node: &T, ctx: &mut EfgCtx, acc1: f64, acc2: f64) {
                             format!("{}/{}", ints[i], total)
                         }
                     };
-                    format!("{} {}", efg_label(&format!("o{}", i)), p)
+                    // Gambit identifies the outcomes of a chance node by position; their labels
+                    // are free text and need not differ: a quarter of the chance infosets leave
+                    // them all empty, a quarter name them in pairs
+                    let label = match label_style {
+                        2 => String::new(),
+                        3 => format!("o{}", i / 2),
+                        _ => format!("o{}", i),
+                    };
+                    format!("{} {}", efg_label(&label), p)
                 })
                 .collect();
             let (outcome, d1, d2) = interior(ctx, false);
